@@ -548,6 +548,7 @@ impl Handle {
     /// Queue server->client bytes (cut by the segmenter) and make the stream readable.
     pub fn inject(&self, bytes: Vec<u8>) {
         let mut st = self.0.lock();
+        st.reflex.note_server_bytes(&bytes);
         self.0.push_in(&mut st, bytes);
         self.0.sync_ready(&mut st);
         self.0.cv.notify_all();
